@@ -121,7 +121,8 @@ type tableRow struct {
 }
 
 type drv struct {
-	defaultNil bool // merklize.SetDocumentLoader(nil) is in force
+	ctxNames   map[string]bool // every key occurring anywhere in the contexts of the document being generated
+	defaultNil bool            // merklize.SetDocumentLoader(nil) is in force
 	cfg        *common.Config
 	rep        *common.Report
 	loader     *ctxload.Loader
@@ -922,7 +923,12 @@ func hasID(m map[string]any) bool {
 }
 
 var undefinedKinds = []string{"u-lit", "u-lit", "u-obj", "u-arr", "u-null", "u-kwalpha", "u-kwdigits", "u-empty", "u-nulterm",
-	"u-scoped-out", "u-typescoped-out", "u-in-nest", "u-in-reverse", "u-embedded-out", "u-in-named-graph", "u-in-named-graph"}
+	"u-scoped-out", "u-typescoped-out", "u-in-nest", "u-in-reverse", "u-embedded-out", "u-in-named-graph", "u-in-named-graph",
+	"u-aliasword", "u-aliasword", "u-aliasword"}
+
+// bare words that JSON-LD contexts commonly alias to keywords; injected only where
+// no context of the document defines them: plain undefined terms
+var aliasWords = []string{"id", "type", "value", "language", "graph", "set", "list", "context", "vocab", "base"}
 var definedKinds = []string{"d-compact", "d-abs", "d-unknown-scheme", "d-alias", "d-scoped-in", "d-typescoped-in", "d-json",
 	"d-embedded-ctx", "d-in-nest", "d-in-named-graph"}
 
@@ -1003,6 +1009,32 @@ func (d *drv) inject(s site, kind string) (dropped [][]any, extra int, ok bool) 
 	case "v-scoped-out":
 		k := []string{"lkin", "lktp"}[r.Intn(2)]
 		return nil, 1, put(k, "vs")
+	case "u-aliasword":
+		var free []string
+		for _, w := range aliasWords {
+			if _, has := s.obj[w]; !has && !d.ctxNames[w] {
+				free = append(free, w)
+			}
+		}
+		if len(free) == 0 {
+			return nil, 0, false
+		}
+		k := free[r.Intn(len(free))]
+		var v any
+		if (free[0] == "id" || free[0] == "type") && r.Intn(2) == 0 {
+			// the two words credentials use most, with the value a keyword alias would take
+			k = free[0]
+			return [][]any{appendPath(s.path, k)}, 0, put(k, "urn:alias:"+d.z())
+		}
+		switch r.Intn(3) {
+		case 0:
+			v = lit()
+		case 1:
+			v = "urn:alias:" + d.z()
+		default:
+			v = map[string]any{"@id": "urn:alias:" + d.z(), "lk:a": "x"}
+		}
+		return [][]any{appendPath(s.path, k)}, 0, put(k, v)
 	case "u-in-nest":
 		k := d.z()
 		return [][]any{appendPath(s.path, "@nest", k)}, 0, put("@nest", map[string]any{k: lit()})
@@ -1099,6 +1131,21 @@ func (d *drv) contextsOf(g *docgen.Gen, obj map[string]any) map[string]json.RawM
 	return out
 }
 
+// collectKeys records every object key occurring anywhere in v.
+func collectKeys(v any, out map[string]bool) {
+	switch x := v.(type) {
+	case map[string]any:
+		for k, e := range x {
+			out[k] = true
+			collectKeys(e, out)
+		}
+	case []any:
+		for _, e := range x {
+			collectKeys(e, out)
+		}
+	}
+}
+
 func ldArrayify(v any) []any {
 	if a, ok := v.([]any); ok {
 		return a
@@ -1153,6 +1200,13 @@ func (d *drv) genCase(g *docgen.Gen, stream string) (CaseInput, bool) {
 		collectSites(obj, gd.Root, nil, "top", false, &sites)
 	}
 	in.Contexts = d.contextsOf(g, root)
+	d.ctxNames = map[string]bool{}
+	collectKeys(root["@context"], d.ctxNames)
+	for _, b := range in.Contexts {
+		if v, err := parseJSON(b); err == nil {
+			collectKeys(v, d.ctxNames)
+		}
+	}
 	pick := func() site { return sites[r.Intn(len(sites))] }
 	switch stream {
 	case "inject":
